@@ -38,6 +38,11 @@ def run(name, props, tier="quick"):
         patch = os.path.join(dst, "patch.diff")
     subprocess.run(["git", "-C", "/repo", "apply", patch], check=True)
     try:
+        d = subprocess.run(["/venv/bin/python", "demo.py"], cwd=dst, capture_output=True, text=True,
+                           env=dict(os.environ, PYTHONPATH="/repo"), timeout=3000)
+        meta["demo_on_current_tree_with_patch_exit"] = d.returncode
+        meta["patch_used"] = os.path.basename(patch)
+        print("demo exit with patch on current tree:", d.returncode)
         for p in props:
             t0 = time.time()
             r = subprocess.run([f"{V}/check", p, "--tier", tier], cwd=V, capture_output=True, text=True)
